@@ -19,6 +19,9 @@ def render(e):
     if e["k"] == "bin":
         return ["a = %s" % sample(e["l"], e.get("ls", "full")), "b = %s" % sample(e["r"], e.get("rs", "full")),
                 "c = a %s b" % e["op"], "print(c)"], "a %s b" % e["op"]
+    if e["k"] == "chain":
+        expr = "a %s b %s d" % (e["op1"], e["op2"])
+        return ["a = %s" % SAMPLE[e["l"]], "b = %s" % SAMPLE[e["r"]], "d = %s" % SAMPLE[e["c"]], "c = " + expr, "print(c)"], expr
     inner = "(a %s b)" % e["op1"]
     expr = "%s %s d" % (inner, e["op2"]) if e["k"] == "left2" else "d %s %s" % (e["op2"], inner)
     return ["a = %s" % SAMPLE[e["l"]], "b = %s" % SAMPLE[e["r"]], "d = %s" % SAMPLE[e["c"]], "c = " + expr, "print(c)"], expr
